@@ -149,6 +149,8 @@ def run(ctx):
                 r2.violation(key, "`stopped` written outside the forced-close path", loc(a["sp"]))
         elif a["kind"] in ("assign", "assign_sub", "borrow_mut") and a["func"].path != f.path:
             r2.violation("%s writes BlockEncoder.stopped" % a["func"].path, "stopped written outside read()", loc(a["sp"]))
+    if not any(a["kind"] == "assign" and a["func"].path == f.path and show(a["value"]) == "True" for a in field_accesses(prog, BE, "stopped")):
+        r2.violation("BlockEncoder::read latches stopped", "force_close_object no longer latches `stopped`: packets keep flowing after the forced close-object packet", loc(f.sp))
     # first statement: if self.stopped return None
     nones = ret_assign_blocks(f.body, lambda e: is_variant(e, "None"))
     entry_guard = any(any(ff[0][0] == "true" and ff[1] and show(ff[0][1]) == "self.stopped" for ff in flow.facts_at(bb)) for bb, _ in nones)
@@ -192,7 +194,7 @@ def run(ctx):
                                           "!transfer_fdt_only && can_transfer_be_stopped()" % (show(v, 80), facts_text(gflow, blk.i)[:200]), loc(st.sp))
         if allok:
             r2.ok(key, "!transfer_fdt_only && can_transfer_be_stopped() && !fdt.is_added(toi)", s.loc)
-    r2.floor(6, "close flag sources")
+    r2.floor(5, "close flag sources")
 
     # ---- R3 -----------------------------------------------------------------------------
     r3 = ctx.rule("C08.R3", "push_lct_header receives close_session = true only from new_alc_pkt_close_session, and "
@@ -256,7 +258,7 @@ def run(ctx):
         fl2 = Flow(f2.body)
         pushes = [s.bb for s, ai, mut in calls_on_field(prog, BE, "blocks", funcs=[f2]) if method_name(s) == "push"]
         key = "%s curr_sbn += 1 pairs with blocks.push" % f2.path
-        ok = pushes and all(fl2.dominates(pb, a["bb"]) for pb in pushes) and len(pushes) == 1
+        ok = pushes and all(pb != a["bb"] and fl2.dominates(pb, a["bb"]) for pb in pushes) and len(pushes) == 1
         ok2 = pushes and fl2.postdominated_by(pushes[0], lambda b: b == a["bb"])[0]
         if ok and ok2:
             r4.ok(key, "", loc(a["sp"]))
